@@ -341,6 +341,45 @@ def rule_r9(chk, F):
                                 "%s compares UInt8 operands with the signed condition %s" % (side, table[insn]), f)
 
 
+def rule_r10(chk, F):
+    """Float constants are data, not numbers, inside a code generator: `imm == 0.0` is also true for -0.0 and
+    `imm != imm` for NaN, so an encoding selected by IEEE comparison materialises a different constant than the
+    one the program wrote — and the other code generator does not."""
+    r = chk.rule("C02.R10", "the Rust code generators never select an encoding by IEEE equality on a float value "
+                            "(`==`/`!=` on f32/f64): float immediates are special-cased by bit pattern only")
+    nfn = 0
+    sites = 0
+    for cn in ("dora_cannon_compiler", "dora_asm", "dora_compiler", "dora_boots_compiler"):
+        c = F.crate(cn)
+        for pth, mb in sorted(c.mir.items()):
+            if "::tests" in pth:
+                continue
+            nfn += 1
+            B = cfg.Body(mb)
+            for blk in B.blocks:
+                for st in blk["s"]:
+                    if not (st[0] == "a" and st[2][0] == "bin" and st[2][1] in ("Eq", "Ne")):
+                        continue
+                    tys = []
+                    for o in st[2][2:4]:
+                        if o[0] in ("c", "m") and not o[1][1]:
+                            tys.append(B.local_ty(o[1][0]))
+                        elif o[0] == "k":
+                            tys.append(o[1].get("ty"))
+                    if not any(t in ("f32", "f64") for t in tys):
+                        continue
+                    sites += 1
+                    key = "%s:float-%s" % (pth, st[2][1].lower())
+                    r.instance(key, sample={"fn": pth, "line": st[3]})
+                    r.violation(key + ":ieee-comparison-selects-code",
+                                "IEEE `%s` on a float inside a code generator: -0.0 == 0.0 (and NaN != NaN), so the "
+                                "special case also fires for a constant with a different bit pattern — e.g. "
+                                "`let x = -0f64; 1.0 / x` yields inf with this generator and -inf with the other" % (
+                                    "==" if st[2][1] == "Eq" else "!="), "%s:%d" % (B.file, st[3]))
+    r.floor("code-generator functions scanned", nfn, 1800)
+    r.instance("scan:float-equality-sites", sample={"functions": nfn, "sites": sites})
+
+
 def run(chk, F):
     rule_r1(chk, F)
     rule_r2(chk, F)
@@ -350,6 +389,7 @@ def run(chk, F):
     from rules import c02_tables
     c02_tables.run_tables(chk, F)
     rule_r9(chk, F)
+    rule_r10(chk, F)
     # C02.R8: arithmetic on program-supplied integers in the natives
     from rules import c02_natarith
     cg_rt = CallGraph(F, libs=["dora_runtime"], bins=[])
